@@ -1,10 +1,601 @@
-// Package c02 holds the runtime monitors for property C02 (see DESIGN.md section 4).
+// Package c02 holds the runtime monitors for property C02: waiting on an
+// event returns after its whole cascade, with exactly its errors (DESIGN.md 4, C02).
 package c02
 
-import "verif/harness/core"
+import (
+	"fmt"
+	"runtime"
+	"sort"
+	"strings"
+	"sync"
+	"sync/atomic"
+	"time"
+
+	"github.com/krotik/ecal/engine"
+
+	"verif/harness/core"
+	"verif/harness/sched"
+)
 
 func init() { core.Register("C02", Run) }
 
+// ---- cascade scripts (data) --------------------------------------------------
+
+type childScript struct {
+	kind int // index into script.kinds; == len(kinds) means the dead (non-triggering) kind
+	prio int
+}
+
+type ruleScript struct {
+	name     string
+	prio     int
+	fail     bool
+	yields   int
+	children []childScript
+}
+
+type script struct {
+	kinds     [][]ruleScript
+	failFirst bool
+	workers   int
+	cascades  int
+	rootKind  []int
+}
+
+func kindName(i int) string { return fmt.Sprintf("k%d", i) }
+
+func (s *script) String() string {
+	var b strings.Builder
+	fmt.Fprintf(&b, "workers=%d cascades=%d failfirst=%v roots=%v;", s.workers, s.cascades, s.failFirst, s.rootKind)
+	for i, rs := range s.kinds {
+		fmt.Fprintf(&b, " k%d:", i)
+		for _, r := range rs {
+			fmt.Fprintf(&b, "[%s p%d", r.name, r.prio)
+			if r.fail {
+				b.WriteString(" FAIL")
+			}
+			for _, c := range r.children {
+				if c.kind == len(s.kinds) {
+					fmt.Fprintf(&b, " +dead/p%d", c.prio)
+				} else {
+					fmt.Fprintf(&b, " +k%d/p%d", c.kind, c.prio)
+				}
+			}
+			b.WriteString("]")
+		}
+	}
+	return b.String()
+}
+
+var prios = []int{0, 1, 2, 5, 9}
+
+func genScript(r *core.Rand) *script {
+	for {
+		s := &script{}
+		nk := r.Range(1, 5)
+		s.failFirst = r.Bool()
+		s.workers = r.OneOf(1, 1, 2, 2, 3, 4, 8, 16)
+		s.cascades = r.OneOf(1, 1, 1, 2, 3, 8)
+		maxFan := r.Range(1, 4)
+		for i := 0; i < nk; i++ {
+			nr := r.Range(1, 3)
+			pp := r.Perm(len(prios))
+			var rs []ruleScript
+			for j := 0; j < nr; j++ {
+				ru := ruleScript{name: fmt.Sprintf("r%d_%d", i, j), prio: prios[pp[j]], fail: r.Chance(1, 4), yields: r.Intn(4)}
+				nc := 0
+				if i < nk-1 || r.Chance(1, 3) {
+					nc = r.Intn(maxFan + 1)
+				}
+				for c := 0; c < nc; c++ {
+					k := nk // dead
+					if i < nk-1 && !r.Chance(1, 5) {
+						k = r.Range(i+1, nk-1)
+					}
+					ru.children = append(ru.children, childScript{k, prios[r.Intn(len(prios))]})
+				}
+				rs = append(rs, ru)
+			}
+			s.kinds = append(s.kinds, rs)
+		}
+		for c := 0; c < s.cascades; c++ {
+			s.rootKind = append(s.rootKind, r.Intn((nk+1)/2))
+		}
+		// bound the size
+		total := 0
+		for c := 0; c < s.cascades; c++ {
+			e := expand(s, s.rootKind[c], fmt.Sprintf("c%d", c))
+			total += len(e.invocations)
+		}
+		if total <= 400 {
+			return s
+		}
+	}
+}
+
+// ---- reference expansion ------------------------------------------------------
+
+type expected struct {
+	invocations map[string]bool // "path|rule"
+	errors      map[string]bool // "path|rule"
+	events      int
+	skipped     int
+}
+
+func expand(s *script, kind int, path string) *expected {
+	e := &expected{invocations: map[string]bool{}, errors: map[string]bool{}}
+	expandInto(s, kind, path, e, 0)
+	return e
+}
+
+func expandInto(s *script, kind int, path string, e *expected, depth int) {
+	if depth > 12 || len(e.invocations) > 2000 {
+		return
+	}
+	e.events++
+	rs := append([]ruleScript{}, s.kinds[kind]...)
+	sort.SliceStable(rs, func(i, j int) bool { return rs[i].prio < rs[j].prio })
+	for _, r := range rs {
+		e.invocations[path+"|"+r.name] = true
+		for j, c := range r.children {
+			if c.kind == len(s.kinds) {
+				e.skipped++
+				continue
+			}
+			expandInto(s, c.kind, fmt.Sprintf("%s/%s.%d", path, r.name, j), e, depth+1)
+		}
+		if r.fail {
+			e.errors[path+"|"+r.name] = true
+			if s.failFirst {
+				break
+			}
+		}
+	}
+}
+
+// ---- the run -----------------------------------------------------------------
+
+type invocation struct {
+	key        string
+	begin, end int64
+}
+
+type runState struct {
+	tr           *sched.Tracer
+	mu           sync.Mutex
+	invs         map[string][]*invocation // key -> invocations
+	mons         []engine.Monitor
+	skipMismatch []string
+}
+
+func (rs *runState) begin(key string) *invocation {
+	inv := &invocation{key: key, begin: rs.tr.Stamp()}
+	rs.mu.Lock()
+	rs.invs[key] = append(rs.invs[key], inv)
+	rs.mu.Unlock()
+	return inv
+}
+
+func buildProcessor(s *script, rs *runState) engine.Processor {
+	proc := engine.NewProcessor(s.workers)
+	proc.SetFailOnFirstErrorInTriggerSequence(s.failFirst)
+	dead := len(s.kinds)
+	for i, rules := range s.kinds {
+		for _, r := range rules {
+			r := r
+			rule := &engine.Rule{
+				Name:       r.name,
+				Desc:       "c02",
+				KindMatch:  []string{"c02." + kindName(i)},
+				ScopeMatch: []string{},
+				Priority:   r.prio,
+				Action: func(p engine.Processor, m engine.Monitor, e *engine.Event, tid uint64) error {
+					path := e.State()["path"].(string)
+					inv := rs.begin(path + "|" + r.name)
+					for y := 0; y < r.yields; y++ {
+						runtime.Gosched()
+					}
+					for j, ch := range r.children {
+						cm := m.NewChildMonitor(ch.prio)
+						rs.mu.Lock()
+						rs.mons = append(rs.mons, cm)
+						rs.mu.Unlock()
+						kn := kindName(ch.kind)
+						if ch.kind == dead {
+							kn = "dead"
+						}
+						ce := engine.NewEvent("e", []string{"c02", kn}, map[interface{}]interface{}{"path": fmt.Sprintf("%s/%s.%d", path, r.name, j)})
+						res, err := p.AddEvent(ce, cm)
+						if err != nil || (res == nil) != (ch.kind == dead) {
+							rs.mu.Lock()
+							rs.skipMismatch = append(rs.skipMismatch, fmt.Sprintf("%s/%s.%d kind=%s monitor=%v err=%v", path, r.name, j, kn, res != nil, err))
+							rs.mu.Unlock()
+						}
+					}
+					inv.end = rs.tr.Stamp()
+					if r.fail {
+						return fmt.Errorf("E|%s|%s", path, r.name)
+					}
+					return nil
+				},
+			}
+			if err := proc.AddRule(rule); err != nil {
+				panic(err)
+			}
+		}
+	}
+	return proc
+}
+
+type cascadeResult struct {
+	idx          int
+	ret          int64 // stamp at return of AddEventAndWait
+	mon          engine.Monitor
+	err          error
+	rm           *engine.RootMonitor
+	errsAtReturn map[string]bool
+	foreign      []string
+	dupErr       []string
+	finishes     int32
+	gid          uint64 // goroutine of the waiter
+	done         chan struct{}
+}
+
+func collectErrors(rm *engine.RootMonitor, cascade string) (map[string]bool, []string, []string) {
+	got := map[string]bool{}
+	var foreign, dup []string
+	for _, te := range rm.AllErrors() {
+		if te == nil {
+			foreign = append(foreign, "nil TaskError")
+			continue
+		}
+		path, _ := te.Event.State()["path"].(string)
+		for rule, err := range te.ErrorMap {
+			want := fmt.Sprintf("E|%s|%s", path, rule)
+			k := path + "|" + rule
+			if err == nil || err.Error() != want {
+				foreign = append(foreign, fmt.Sprintf("entry (%s,%s) holds error %v", path, rule, err))
+				continue
+			}
+			if !strings.HasPrefix(path, cascade+"/") && path != cascade {
+				foreign = append(foreign, "entry of another cascade: "+k)
+				continue
+			}
+			if got[k] {
+				dup = append(dup, k)
+			}
+			got[k] = true
+		}
+	}
+	return got, foreign, dup
+}
+
+func setDiff(a, b map[string]bool) []string {
+	var r []string
+	for k := range a {
+		if !b[k] {
+			r = append(r, k)
+		}
+	}
+	sort.Strings(r)
+	if len(r) > 6 {
+		r = append(r[:6], fmt.Sprintf("... %d more", len(r)-6))
+	}
+	return r
+}
+
+// runScenario executes one script on the real engine and applies all oracles.
+// gate may be nil.
+func runScenario(c *core.Ctx, stream string, idx int, s *script, noise uint64, noiseSeed uint64, gate *sched.Gate) {
+	desc := s.String()
+	c.Begin(0, stream, idx, desc)
+	defer c.End(0)
+	tr := sched.NewTracer()
+	tr.Collapse["pool.broadcast"] = true
+	rs := &runState{tr: tr, invs: map[string][]*invocation{}}
+	proc := buildProcessor(s, rs)
+	pool := proc.ThreadPool()
+	tr.SetNoise(noiseSeed, noise)
+	tr.Install()
+	defer sched.Uninstall()
+	proc.Start()
+	if gate != nil {
+		tr.AddGate(gate)
+	}
+	results := make([]*cascadeResult, s.cascades)
+	for k := 0; k < s.cascades; k++ {
+		cr := &cascadeResult{idx: k, done: make(chan struct{})}
+		results[k] = cr
+		cr.rm = proc.NewRootMonitor(nil, nil)
+		cr.rm.SetFinishHandler(func(engine.Processor) { atomic.AddInt32(&cr.finishes, 1) })
+		rs.mu.Lock()
+		rs.mons = append(rs.mons, cr.rm)
+		rs.mu.Unlock()
+		go func(k int) {
+			defer close(cr.done)
+			atomic.StoreUint64(&cr.gid, sched.GoID())
+			name := fmt.Sprintf("c%d", k)
+			ev := engine.NewEvent("e", []string{"c02", kindName(s.rootKind[k])}, map[interface{}]interface{}{"path": name})
+			cr.mon, cr.err = proc.AddEventAndWait(ev, cr.rm)
+			cr.ret = tr.Stamp()
+			// what a caller sees right after the wait returned
+			cr.errsAtReturn, cr.foreign, cr.dupErr = collectErrors(cr.rm, name)
+		}(k)
+	}
+	// wait for all cascades, or a stuck state
+	allDone := func() bool {
+		for _, cr := range results {
+			select {
+			case <-cr.done:
+			default:
+				return false
+			}
+		}
+		return true
+	}
+	verdict := "inconclusive"
+	gateForced := false
+	for i := 0; i < 20000; i++ {
+		if allDone() {
+			verdict = "done"
+			break
+		}
+		if gate != nil && gate.Holding() && i > 400 && !gateForced {
+			// the partner cannot reach its point while the holder is held
+			// (or needs much longer): open the gate, record as infeasible
+			gate.Release()
+			gateForced = true
+		}
+		if i > 5 && (gate == nil || !gate.Holding()) {
+			if st, _ := sched.PoolStuck(tr, pool); st && waitersBlocked(results) && !allDone() {
+				verdict = "stuck"
+				break
+			}
+		}
+		if i < 100 {
+			time.Sleep(50 * time.Microsecond)
+		} else {
+			time.Sleep(500 * time.Microsecond)
+		}
+	}
+	detail := func() map[string]interface{} {
+		return map[string]interface{}{"script": desc, "trace_tail": traceTail(tr, 50)}
+	}
+	if gate != nil {
+		tr.ClearGates()
+		if gate.WasHeld() && gate.Released != 0 {
+			c.Event("gate.feasible", 1)
+			c.NontrivialKey("gate|" + gate.HoldPoint + "|" + gate.UntilPoint + "|" + desc)
+		} else {
+			c.Event("gate.infeasible", 1)
+		}
+	}
+	switch verdict {
+	case "stuck":
+		key := "stuck:addeventandwait"
+		if gate != nil {
+			key = fmt.Sprintf("stuck:%s->%s", gate.HoldPoint, gate.UntilPoint)
+		}
+		c.Violation(key, "AddEventAndWait does not return: all workers parked in Cond.Wait, no AddTask in flight, cascade unfinished", stream, idx, detail())
+		// outside help so that the scenario can be torn down
+		pool.WaitAll()
+		for i := 0; i < 2000 && !allDone(); i++ {
+			time.Sleep(time.Millisecond)
+		}
+		if !allDone() {
+			return
+		}
+	case "inconclusive":
+		c.Inconclusive("cascades neither returned nor pool stuck", stream, idx, detail())
+		return
+	}
+	// ---- oracles at return time
+	for k, cr := range results {
+		name := fmt.Sprintf("c%d", k)
+		exp := expand(s, s.rootKind[k], name)
+		if cr.mon == nil || cr.err != nil {
+			c.Violation("wait-result", fmt.Sprintf("AddEventAndWait returned monitor=%v err=%v for a triggering event", cr.mon != nil, cr.err), stream, idx, detail())
+			continue
+		}
+		// (1) no action of the cascade ends after the return; exactly the expected invocations
+		rs.mu.Lock()
+		late, missing, extra, dup := []string{}, []string{}, []string{}, []string{}
+		for key := range exp.invocations {
+			invs := rs.invs[key]
+			if len(invs) == 0 {
+				missing = append(missing, key)
+				continue
+			}
+			if len(invs) > 1 {
+				dup = append(dup, key)
+			}
+			for _, inv := range invs {
+				if inv.end == 0 || inv.end > cr.ret {
+					late = append(late, fmt.Sprintf("%s (end stamp %d, return stamp %d)", key, inv.end, cr.ret))
+				}
+			}
+		}
+		for key := range rs.invs {
+			if (strings.HasPrefix(key, name+"/") || strings.HasPrefix(key, name+"|")) && !exp.invocations[key] {
+				extra = append(extra, key)
+			}
+		}
+		rs.mu.Unlock()
+		sort.Strings(late)
+		sort.Strings(missing)
+		sort.Strings(extra)
+		d := detail()
+		if len(late) > 0 {
+			d["late"] = late
+			c.Violation("late-action", fmt.Sprintf("AddEventAndWait returned before %d action(s) of its cascade had returned", len(late)), stream, idx, d)
+		}
+		if len(missing) > 0 {
+			d["missing"] = missing
+			c.Violation("action-missing", fmt.Sprintf("%d expected rule invocation(s) never ran although the wait returned", len(missing)), stream, idx, d)
+		}
+		if len(extra) > 0 || len(dup) > 0 {
+			d["extra"] = extra
+			d["dup"] = dup
+			c.Violation("action-extra", "rule invocations outside the expected set (or repeated)", stream, idx, d)
+		}
+		// (4) error report
+		if len(cr.foreign) > 0 {
+			d["foreign"] = cr.foreign
+			c.Violation("errors-foreign", "error report holds an entry that does not belong to this (event, rule) / cascade", stream, idx, d)
+		}
+		if len(cr.dupErr) > 0 {
+			d["dup"] = cr.dupErr
+			c.Violation("errors-duplicate", "error report holds an (event, rule) entry twice", stream, idx, d)
+		}
+		if m := setDiff(exp.errors, cr.errsAtReturn); len(m) > 0 {
+			d["lost"] = m
+			c.Violation("errors-lost", fmt.Sprintf("%d failing (event, rule) pair(s) are missing from the error report when the wait returns", len(m)), stream, idx, d)
+		}
+		if m := setDiff(cr.errsAtReturn, exp.errors); len(m) > 0 {
+			d["unexpected"] = m
+			c.Violation("errors-unexpected", "error report holds (event, rule) pairs that did not fail", stream, idx, d)
+		}
+		c.Event("cascade", 1)
+		c.Event("actions", int64(len(exp.invocations)))
+		c.Event("errors.expected", int64(len(exp.errors)))
+		c.Event("children.skipped", int64(exp.skipped))
+	}
+	// ---- oracles at quiescence
+	proc.Finish()
+	for k, cr := range results {
+		if n := atomic.LoadInt32(&cr.finishes); n != 1 {
+			c.Violation(fmt.Sprintf("finish-handler-count:%d", min(int(n), 2)), fmt.Sprintf("finish handler of cascade c%d ran %d times", k, n), stream, idx, detail())
+		}
+		got, _, _ := collectErrors(cr.rm, fmt.Sprintf("c%d", k))
+		if len(setDiff(got, cr.errsAtReturn)) > 0 || len(setDiff(cr.errsAtReturn, got)) > 0 {
+			c.Violation("errors-changed-after-return", "the error report changed after the wait had returned", stream, idx, detail())
+		}
+	}
+	rs.mu.Lock()
+	unfinished := 0
+	for _, m := range rs.mons {
+		if f, ok := m.(interface{ IsFinished() bool }); ok && !f.IsFinished() {
+			unfinished++
+		}
+	}
+	nm := len(rs.mons)
+	sm := rs.skipMismatch
+	rs.mu.Unlock()
+	if unfinished > 0 {
+		c.Violation("monitor-unfinished", fmt.Sprintf("%d of %d monitors handed to the processor are not finished at quiescence", unfinished, nm), stream, idx, detail())
+	}
+	if len(sm) > 0 {
+		d := detail()
+		d["mismatch"] = sm
+		c.Violation("child-skip-mismatch", "AddEvent on a child monitor returned a monitor for a non-triggering event or none for a triggering one", stream, idx, d)
+	}
+	c.Event("monitors", int64(nm))
+	c.Nontrivial(sched.Signature(tr.Snapshot(), func(p string) bool { return !strings.HasPrefix(p, "pool.broadcast") }))
+	for k, v := range tr.Counts() {
+		c.Event(k, v)
+	}
+	if idx%101 == 0 {
+		c.Sample(stream, map[string]interface{}{"script": desc, "trace_tail": traceTail(tr, 10)})
+	}
+}
+
+// waitersBlocked tells whether every waiter that has not returned is blocked
+// inside the wait itself (WaitGroup), i.e. is not merely on its way out.
+func waitersBlocked(results []*cascadeResult) bool {
+	st := sched.GoStates()
+	for _, cr := range results {
+		select {
+		case <-cr.done:
+			continue
+		default:
+		}
+		g := atomic.LoadUint64(&cr.gid)
+		if g == 0 {
+			return false
+		}
+		if s := st[g]; s != "semacquire" && s != "sync.WaitGroup.Wait" {
+			return false
+		}
+	}
+	return true
+}
+
+func traceTail(tr *sched.Tracer, n int) []string {
+	evs := tr.Snapshot()
+	if len(evs) > n {
+		evs = evs[len(evs)-n:]
+	}
+	var out []string
+	for _, e := range evs {
+		extra := ""
+		for _, a := range e.Args {
+			switch v := a.(type) {
+			case *engine.Event:
+				if p, ok := v.State()["path"]; ok {
+					extra += fmt.Sprint(" ", p)
+				}
+			case int, bool, uint64, string:
+				extra += fmt.Sprint(" ", v)
+			}
+		}
+		out = append(out, fmt.Sprintf("%d g%d %s%s", e.Seq, e.G, e.Point, extra))
+	}
+	return out
+}
+
+// ---- gate matrix ---------------------------------------------------------------
+
+var holdPoints = []string{"mon.finish.unlocked", "mon.posted", "task.run.begin", "task.run.processed", "task.run.end",
+	"task.err.begin", "task.err.seterrors", "task.err.finished", "pool.get.empty", "pool.worker.loop", "pool.get.popped", "pool.idle.beforewait"}
+var untilPoints = []string{"mon.created.locked", "mon.activated.locked", "mon.finish.locked", "mon.finish.unlocked", "mon.posted",
+	"task.run.begin", "task.run.processed", "task.err.seterrors", "task.err.finished", "pool.get.empty", "pool.add.signalled", "tq.push", "tq.pop"}
+
+func gateShapes() []*script {
+	mk := func(w int, ff bool, kinds [][]ruleScript) *script {
+		return &script{kinds: kinds, failFirst: ff, workers: w, cascades: 1, rootKind: []int{0}}
+	}
+	// shape A: root adds two children, one fails; shape B: chain of depth 3 with a failing leaf and a skipped child
+	a := [][]ruleScript{
+		{{name: "r0_0", prio: 0, children: []childScript{{1, 1}, {1, 2}, {2, 0}}}},
+		{{name: "r1_0", prio: 1, fail: true}, {name: "r1_1", prio: 2}},
+	}
+	b := [][]ruleScript{
+		{{name: "r0_0", prio: 0, fail: true, children: []childScript{{1, 0}}}, {name: "r0_1", prio: 5, children: []childScript{{3, 0}}}},
+		{{name: "r1_0", prio: 0, children: []childScript{{2, 2}, {3, 1}}}},
+		{{name: "r2_0", prio: 9, fail: true}},
+	}
+	return []*script{mk(2, false, a), mk(2, true, b), mk(3, false, b), mk(1, false, a)}
+}
+
 // Run is the check.
 func Run(c *core.Ctx) {
+	c.Note("rule", "cascade scripts are data (per event kind a list of rules with priority, fail flag, yields and child events with priorities, incl. non-triggering children); an independent expansion gives the expected (event, rule) invocations and failures (respecting fail-on-first-error); the real engine runs them with harness closures as actions, 1..16 workers, 1..8 cascades in flight from separate goroutines; streams: 'gate' = 4 fixed shapes x 12 hold points x 13 partner points (one goroutine held at the hold point until another passed the partner point; infeasible pairs are released), 'noise' = seeded random scripts with random yields/sleeps at the lock-free hook points, also under -race; oracles: stamps of action ends vs. return of AddEventAndWait, exactly-once invocation table, AllErrors() at return time and again at quiescence vs. expected failures, finish-handler count, IsFinished of every monitor handed out, stuck-state predicate for a wait that cannot return; non-trivial/distinct = distinct interleaving signatures of the hook trace and feasible gate cases")
+	shapes := gateShapes()
+	i := 0
+	for si, sh := range shapes {
+		for _, h := range holdPoints {
+			for _, u := range untilPoints {
+				idx := i
+				i++
+				if !c.Take("gate", idx) {
+					continue
+				}
+				_ = si
+				g := sched.NewGate(h, u)
+				runScenario(c, "gate", idx, sh, 0, 0, g)
+			}
+		}
+	}
+	n := c.Pick(3000, 150000)
+	if c.Race {
+		n = c.Pick(800, 30000)
+	}
+	for k := 0; k < n; k++ {
+		if !c.Take("noise", k) {
+			continue
+		}
+		r := c.Rng("noise", k)
+		s := genScript(r)
+		runScenario(c, "noise", k, s, uint64(r.OneOf(0, 100, 300, 700)), r.U64(), nil)
+	}
 }
